@@ -534,6 +534,11 @@ class Emitter:
         out.append("/*@fn-begin %s*/" % qual)
         if assumed:
             out.append("#[verifier::external_body]")
+        if d.opts.get("attr") and not assumed:
+            # X13: a Verus attribute on the function (e.g. verifier::exec_allows_no_decreases_clause: termination of the
+            # loops / of the recursion is NOT an obligation of this function; the contract is one of partial correctness)
+            out.append("#[%s]" % d.opts["attr"])
+            log.append("X13 attribute #[%s]: termination of this function is not proved (partial correctness)" % d.opts["attr"])
         generics = d.opts.get("generics", fp.generics)
         if generics != fp.generics:
             log.append("X6 generics of the enclosing impl moved onto the function: " + generics)
